@@ -1077,6 +1077,33 @@ def check_c16(tier):
 CHECKS = {"C20": check_c20, "C01": check_c01, "C15": check_c15, "C16": check_c16, "C18": check_c18}
 
 
+def setup_build():
+    """setup_cmd: pre-build everything the quick checks need (they rebuild incrementally anyway)."""
+    t0 = time.time()
+    build_shim()
+    R = ["ring", "pem", "x509-parser"]
+    A = ["aws_lc_rs", "pem", "x509-parser"]
+    N = ["pem", "x509-parser"]
+    for feats, hook in ((R, True), (A, True), (N, True), (R + ["shuttle"], True), (N + ["shuttle"], True), (R, False)):
+        build_simnode(feats, hook=hook, quiet=False)
+    build_tool("clisim")
+    for backend in ("ring", "aws_lc_rs"):
+        cli, err = build_cli(backend)
+        if cli is None:
+            raise HarnessError("CLI build failed for %s:\n%s" % (backend, err))
+        log("built rustls-cert-gen[%s]" % backend)
+    for cfg in all_configs():
+        ok, out = cargo_check_config(cfg["features"], hook=False)
+        if not ok:
+            log("note: rcgen does not compile with [%s] (C16 will report it)" % ",".join(cfg["features"]))
+    rc, out = run_miri("-Zmiri-seed=0 -Zmiri-preemption-rate=0.1", 1, 2)
+    log("miri warm-up rc=%d" % rc)
+    if rc != 0:
+        log(out[-1500:])
+    log("setup done in %.0fs" % (time.time() - t0))
+    return 0
+
+
 def replay(path):
     with open(path) as f:
         r = json.load(f)
@@ -1122,8 +1149,7 @@ def main(argv):
         if argv[0] == "replay":
             return replay(argv[1])
         if argv[0] == "build":
-            build_simnode(MAIN_FEATURES, hook=True, quiet=False)
-            return 0
+            return setup_build()
         if argv[0] in CHECKS:
             tier = argv[1] if len(argv) > 1 else os.environ.get("VERIF_TIER", "quick")
             if tier not in ("quick", "thorough"):
